@@ -137,12 +137,12 @@ def ref_calc_value(amount, price, dec, weight):
     return z3.If(amount == 0, 0, v)
 
 
-def t_asset_value(world):
+def t_asset_value(world, oid='C04.a'):
     eng = world.engine(opaque=[r'try_get_price_feed$', r'find_with_tag$', r'get_price_of_type$'], max_paths=20000)
     f = world.fn(r'::calc_weighted_asset_value$')
     args = [eng.ex.fresh(ty, n) for n, (_, ty) in zip(['pos', 'req', 'bank', 'emode'], f.params)]
     res = eng.run_fn(f, args)
-    ob = Ob('C04.a', 'calc_weighted_asset_value == reference: low-biased price (time-weighted for Initial/Equity, spot for Maintenance), weight = max(bank, e-mode entry) of the requirement, USD-cap discount for Initial, zero for isolated / reduce-only(Initial) / oracle error(Initial); oracle errors propagate otherwise',
+    ob = Ob(oid, 'calc_weighted_asset_value == reference: low-biased price (time-weighted for Initial/Equity, spot for Maintenance), weight = max(bank, e-mode entry) of the requirement, USD-cap discount for Initial, zero for isolated / reduce-only(Initial) / oracle error(Initial); oracle errors propagate otherwise',
             [f.name], 'loop-free; every path; decimals 0..=23 via the constant table; all i128 values (overflow paths are Err/panic)'); ob.paths = len(res)
     req = zint(args[1].disc)
     g = lambda n: fsym('bank*', 'Bank', n)
@@ -202,12 +202,12 @@ def t_asset_value(world):
     return [ob]
 
 
-def t_liab_value(world):
+def t_liab_value(world, oid='C04.b'):
     eng = world.engine(opaque=[r'try_get_price_feed$', r'get_price_of_type$'], max_paths=20000)
     f = world.fn(r'::calc_weighted_liab_value$')
     args = [eng.ex.fresh(ty, n) for n, (_, ty) in zip(['pos', 'req', 'bank'], f.params)]
     res = eng.run_fn(f, args)
-    ob = Ob('C04.b', 'calc_weighted_liab_value == reference: HIGH-biased price of the requirement\'s type, liability weight of the requirement, oracle errors always propagate',
+    ob = Ob(oid, 'calc_weighted_liab_value == reference: HIGH-biased price of the requirement\'s type, liability weight of the requirement, oracle errors always propagate',
             [f.name], 'loop-free; every path'); ob.paths = len(res)
     req = zint(args[1].disc); g = lambda n: fsym('bank*', 'Bank', n)
     PT = ENUMS['OraclePriceType']; PB = ENUMS['PriceBias']
@@ -330,5 +330,5 @@ def mk_reconcile(K, m):
 
 _t04c = tasks
 def tasks(tier):
-    shapes = [(1, 2), (2, 2), (3, 1)] if tier == 'quick' else [(1, 3), (2, 2), (2, 3), (3, 2), (4, 1)]
+    shapes = [(1, 2), (2, 2), (3, 1)] if tier == 'quick' else [(1, 3), (2, 2), (3, 1), (4, 1)]
     return _t04c(tier) + [(f'reconcile{K}x{m}', mk_reconcile(K, m)) for K, m in shapes]
